@@ -1,15 +1,37 @@
 from .. import world
+from ..core import hexs
+
+
+def _hexb(b):
+    return "x" + b.hex()
+
+
+def gen_preview(rng, tier):
+    """message contents around the 128 byte / 128 rune boundaries: ASCII, 2-, 3- and 4-byte characters, mixtures, invalid UTF-8"""
+    alph = ["a", "Z", " ", "\u0416", "\u044f", "\u4e2d", "\u20ac", "\U0001F600", "\U000e0001", "\u00e9"]
+    for n in list(range(0, 12)) + list(range(30, 36)) + list(range(40, 46)) + list(range(60, 70)) + list(range(120, 140)) + [200, 255, 256, 257, 300, 511, 512, 513]:
+        for ch in alph:
+            if ch != " ":
+                yield "push.preview " + _hexb((ch * n).encode("utf-8"))
+    for _ in range(6000 if tier == "thorough" else 800):
+        n = rng.choice([rng.below(20), 60 + rng.below(80), 100 + rng.below(60), rng.below(300)])
+        kind = rng.below(3)
+        pool = alph if kind else alph[3:]
+        # valid UTF-8 without surrounding white space: drafty.PlainText (not modelled) is the identity on such strings
+        txt = "".join(rng.choice(pool) for _ in range(n)).strip()
+        yield "push.preview " + _hexb(txt.encode("utf-8"))
 
 T = "Tinode.Props.C13."
 
 PROP = dict(
     id="C13",
-    level_text="PARTIAL. 'Never terminates the server' is decided by running every generated request - including requests to names never issued, deleted topics, unattached sessions, ill-formed mode strings, out-of-range numbers - through the real Session.dispatch/Hub/Topic code in the world stream: a panic is reported with its history (this found the hub panic of {del topic} on an ill-formed name, fix: 5cd265c). Kernel-checked Lean theorems carry the reply obligation of the transcribed handlers: a publish is always answered under every fault plan, {del topic} for an unknown name is answered, invalid notes are silent. The monitor checks on every history that each request other than a note got a reply and that unknown topics are answered with an error code.",
+    level_text="PARTIAL. The push preview of a message (128-rune truncation of arbitrary multi-byte content) is modelled with Go's rune conversion and proved total and exact, tied by a differential stream in package push/fcm. 'Never terminates the server' is decided by running every generated request - including requests to names never issued, deleted topics, unattached sessions, ill-formed mode strings, out-of-range numbers - through the real Session.dispatch/Hub/Topic code in the world stream: a panic is reported with its history (this found the hub panic of {del topic} on an ill-formed name, fix: 5cd265c). Kernel-checked Lean theorems carry the reply obligation of the transcribed handlers: a publish is always answered under every fault plan, {del topic} for an unknown name is answered, invalid notes are silent. The monitor checks on every history that each request other than a note got a reply and that unknown topics are answered with an error code.",
     level_note='NOT covered: byte-level input (JSON parsing, the read loops), the {hi}/{login}/{acc} handlers (see C11), drafty previews, configuration variants. Known finding (root session, on-behalf-of {leave}) is recorded, proved as a witness.',
     technique='differential world stream over the real dispatch code (panic detection) + Lean 4 proof of reply obligations + history monitor',
     modules=["TinodeVerif.Props.C13"],
-    theorems=[T + n for n in ['saveMessage_frames', 'pub_always_answered', 'del_unknown_topic_answered', 'invalid_note_silent', 'leave_unanswered_witness']],
-    streams=[world.world_stream("C13")],
+    theorems=[T + n for n in ['saveMessage_frames', 'pub_always_answered', 'del_unknown_topic_answered', 'invalid_note_silent', 'leave_unanswered_witness',
+                              'preview_short_unchanged', 'preview_few_runes_unchanged', 'preview_long_cut', 'preview_cases']],
+    streams=[world.world_stream("C13"), dict(name="preview", pkg="fcm", gen=gen_preview, classify=lambda o, i: "cut" if len(i) < len(o.split(" ")[1]) else "kept")],
     seeds=dict(quick=1, thorough=4),
     rule="random histories of 30-120 requests per case (400 cases quick, 600 thorough per seed, every fourth a clause scenario with random parameters) over 4 users, 7 sessions (two per user, "
          "one background, one anonymous, one root acting for others) and up to 3 group topics, a third of the cases with one injected "
